@@ -260,6 +260,12 @@ int main(void) {
       /* real clock, generous: only "not early" is judged */
       struct timespec r0, m0, r1, m1; long ret = -1; double need = 0, er, em;
       in_op = 0;
+      { /* start at a random phase of the clock's tick (back-to-back sleeps would lock to it and hide a coarse clock) */
+        static unsigned long ph = 12345; ph = ph * 6364136223846793005UL + 1442695040888963407UL;
+        struct timespec b0, b1; long wait_ns = (long)((ph >> 33) % 4500000UL);
+        clock_gettime(CLOCK_MONOTONIC, &b0);
+        do clock_gettime(CLOCK_MONOTONIC, &b1); while ((b1.tv_sec - b0.tv_sec) * 1000000000L + (b1.tv_nsec - b0.tv_nsec) < wait_ns);
+      }
       if (!strcmp(w[1], "nanosleep") && n >= 4) {
         struct timespec req; req.tv_sec = strtol(w[2], 0, 10); req.tv_nsec = strtol(w[3], 0, 10);
         need = (double)req.tv_sec * 1e9 + (double)req.tv_nsec;
